@@ -307,6 +307,33 @@ Fixpoint last_rc (tr : list event) : option bool :=
 Definition exit_cause (tr : list event) : bool :=
   match tdm tr with Some _ => true | None => match last_rc tr with Some false => true | _ => false end end.
 
+(* most recent initialisation or step (the thread's exit does not touch the counter) *)
+Fixpoint last_is (tr : list event) : option event :=
+  match tr with
+  | [] => None
+  | EInit :: _ => Some EInit
+  | EStep k :: _ => Some (EStep k)
+  | _ :: t => last_is t
+  end.
+
+(* admissible answers of step_number(): 0 (counter zeroed at the loop top / nothing stepped yet),
+   the number of the last started step (its increment still in flight) or that number + 1 *)
+Definition qstep_ok (k : nat) (t : list event) : bool :=
+  match last_is t with
+  | Some (EStep j) => Nat.eqb k 0 || Nat.eqb k j || Nat.eqb k (S j)
+  | _ => Nat.eqb k 0
+  end.
+
+(* is_running() may answer false only if run was never requested or a reboot / the final store came after the last run *)
+Fixpoint can_be_false (tr : list event) : bool :=
+  match tr with
+  | [] => true
+  | ECmd Run :: _ => false
+  | ECmd Reboot :: _ => true
+  | EExit :: _ => true
+  | _ :: t => can_be_false t
+  end.
+
 Definition le1 (o : option nat) : bool :=
   match o with Some (S (S _)) => false | _ => true end.
 
@@ -330,7 +357,9 @@ Definition head_ok (e : event) (t : list event) : bool :=
   | EStep 0 => opt_is (last_thr t) EInit && runreq t
   | EStep (S k) => opt_is (last_thr t) (EStep k) && runreq t
   | EExit => is_init_or_step (last_thr t) && exit_cause t
-  | EQRun true => match rae t with Some false => false | _ => true end
+  | EQRun true => runreq t && match rae t with Some false => false | _ => true end
+  | EQRun false => can_be_false t
+  | EQStep k => qstep_ok k t
   | _ => true
   end.
 
